@@ -295,7 +295,7 @@ def split_traces(path):
         yield start, cur
 
 
-SLIM = ("op", "sc", "to", "b", "tip", "p1", "p2", "eph", "full", "valid", "mine", "alias", "kind", "basis", "set", "r", "id", "k",
+SLIM = ("op", "sc", "to", "b", "tip", "p1", "p2", "eph", "full", "valid", "mine", "alias", "asked", "found", "kind", "basis", "set", "r", "id", "k",
         "from", "corrupt", "ids", "proofs", "nopanic", "x", "detail")
 
 
@@ -423,7 +423,7 @@ def leg_t(wd, binary, prop, mode, verdict, devs, histories, steps, shards=8, tag
 
 ACCEPT = {
     "C14": r"^(audit:c14:|trace:C14:(AddSet|Lookup):|trace:C14:[A-Za-z]+:(Atomicity|KnownIffAllPooled|LookupExact|NoAliasing|TypeOK))",
-    "C05": r"^(audit:c05:|trace:C05:(Obs|Mine|Submit|Revert|Apply|Done|Reset):|trace:C05:[A-Za-z]+:(PrefixValid|Retention|NoInvention|Minable|Mined|EvictOnlyWhenFull|TypeOK))",
+    "C05": r"^(audit:c05:|trace:C05:(Obs|Mine|Submit|Revert|Apply|Done|Reset):|trace:C05:[A-Za-z]+:(PrefixValid|Retention|Retrievable|NoInvention|Minable|Mined|EvictOnlyWhenFull|TypeOK))",
     "C13": r"^(audit:c13:|trace:C13:(Rebase|TxSet):|trace:C13:AddSet:unexplained:stale-basis|trace:C13:[A-Za-z]+:(Rebase|ParentsFirst|BasisIsTip|TxSetErrors|NoPanic))",
 }
 
